@@ -43,7 +43,7 @@ def from_callback_(
                     observer.on_completed()
                 else:
                     if len(results) <= 1:
-                        observer.on_next(*results)
+                        observer.on_next(results[0] if results else None)
                     else:
                         observer.on_next(results)
 
